@@ -247,7 +247,21 @@ def small_worker(job):
                     script = ",".join("k9" if j == rng.randrange(3) else "0" for j in range(3)) + ",0" * 20
             elif r < 0.45:
                 missing = True
-                toks = [("/nonexistent/verif-cmd" if x == common.REC else x) for x in toks]
+                badcmd = "/nonexistent/verif-cmd"
+                if rng.random() < 0.5:
+                    # a command that exists but cannot be started (no execute bit, a directory, not an executable format): the same
+                    # contract as for a missing one - nothing runs, find's exit status is non-zero
+                    bd = os.path.join(base, "verif-badcmd-%d" % t)
+                    os.makedirs(os.path.join(bd, "cmddir"), exist_ok=True)
+                    with open(os.path.join(bd, "noexec"), "w") as f_:
+                        f_.write("#!/bin/sh\nexit 0\n")
+                    os.chmod(os.path.join(bd, "noexec"), 0o644)
+                    with open(os.path.join(bd, "garbage"), "wb") as f_:
+                        f_.write(b"\x00\x01\x02 not an executable format \xff\n")
+                    os.chmod(os.path.join(bd, "garbage"), 0o755)
+                    badcmd = os.path.join(bd, rng.choice(["noexec", "cmddir", "garbage"]))
+                    st.inc("runs_with_a_command_that_exists_but_cannot_be_started")
+                toks = [(badcmd if x == common.REC else x) for x in toks]
             log = os.path.join(sb, "rec.log")
             env = common.clean_env({"VERIF_REC_LOG": log})
             if script:
